@@ -31,13 +31,14 @@ var (
 )
 
 type World struct {
-	S     *stack.Stack
-	L     map[int]*netsim.Link
-	eps   []tcpip.Endpoint
-	wqs   []*waiter.Queue
-	r     *hx.Run
-	Focus string
+	S           *stack.Stack
+	L           map[int]*netsim.Link
+	eps         []tcpip.Endpoint
+	wqs         []*waiter.Queue
+	r           *hx.Run
+	Focus       string
 	lastWasData bool
+	is6         []bool
 }
 
 func errName(e *tcpip.Error) string { return strings.ReplaceAll(e.String(), " ", "-") }
@@ -55,7 +56,7 @@ func (w *World) emit(op, res string) {
 func (w *World) Reset(promisc2 bool) {
 	w.S = netsim.NewStack()
 	w.L = map[int]*netsim.Link{}
-	w.eps, w.wqs = nil, nil
+	w.eps, w.wqs, w.is6 = nil, nil, nil
 	w.emit("reset", "ok")
 	for _, id := range []int{1, 2} {
 		lid, l := netsim.NewLink(65536+100, tcpip.LinkAddress([]byte{2, 0, 0, 0, 0, byte(id)}), 0)
@@ -106,6 +107,7 @@ func (w *World) NewUDP(pr string) int {
 	}
 	w.eps = append(w.eps, ep)
 	w.wqs = append(w.wqs, wq)
+	w.is6 = append(w.is6, pr == "6")
 	i := len(w.eps) - 1
 	w.emit(fmt.Sprintf("udp.new %d %s", i, pr), "ok")
 	return i
@@ -301,10 +303,49 @@ func Gen(r *hx.Run, focus string) {
 				w.NewUDP("4")
 			}
 		}
+		// phase 1: give most sockets a role (bound wildcard / bound specific / connected / both)
+		for i := range w.eps {
+			v6s := w.is6[i]
+			switch r.R.Intn(6) {
+			case 0:
+				// stays unbound
+			case 1:
+				w.Bind(i, nil, localPorts[r.R.Intn(2)])
+			case 2:
+				if v6s {
+					w.Bind(i, [][]byte{v6a, mapped(a1), nil}[r.R.Intn(3)], localPorts[r.R.Intn(2)])
+				} else {
+					w.Bind(i, [][]byte{a1, a2, a3}[r.R.Intn(3)], localPorts[r.R.Intn(2)])
+				}
+			case 3:
+				if v6s {
+					w.Connect(i, [][]byte{v6r, mapped(rem1)}[r.R.Intn(2)], []uint16{9000, 9001}[r.R.Intn(2)])
+				} else {
+					w.Connect(i, [][]byte{rem1, rem2, rem3}[r.R.Intn(3)], []uint16{9000, 9001}[r.R.Intn(2)])
+				}
+			default:
+				if v6s {
+					w.Bind(i, nil, localPorts[r.R.Intn(2)])
+				} else {
+					w.Bind(i, [][]byte{nil, a1, a2}[r.R.Intn(3)], localPorts[r.R.Intn(2)])
+				}
+				if r.R.Intn(2) == 0 {
+					if v6s {
+						w.Connect(i, [][]byte{v6r, mapped(rem1)}[r.R.Intn(2)], []uint16{9000, 9001}[r.R.Intn(2)])
+					} else {
+						w.Connect(i, [][]byte{rem1, rem2, rem3}[r.R.Intn(3)], []uint16{9000, 9001}[r.R.Intn(2)])
+					}
+				}
+			}
+		}
 		nops := 5 + r.R.Intn(r.Pick(40, 120))
 		for k := 0; k < nops; k++ {
 			i := r.R.Intn(len(w.eps))
-			switch op := r.R.Intn(20); {
+			op := r.R.Intn(20)
+			if op < 5 && r.R.Intn(3) != 0 {
+				op = 5 + r.R.Intn(10) // fewer re-binds / re-connects (mostly error paths), more traffic
+			}
+			switch {
 			case op < 3:
 				addrs := [][]byte{nil, a1, a2, a3, v6a, mapped(a1), mapped([]byte{0, 0, 0, 0}), {10, 9, 9, 9}}
 				port := localPorts[r.R.Intn(2)]
@@ -334,14 +375,21 @@ func Gen(r *hx.Run, focus string) {
 				} else if r.R.Intn(25) == 0 && n > 2 {
 					delta = -1 - r.R.Intn(2)
 				}
+				dport := localPorts[r.R.Intn(2)]
+				if r.R.Intn(4) != 0 { // aim at a port some socket actually has (ephemeral ones included)
+					j := r.R.Intn(len(w.eps))
+					if a, _ := w.eps[j].GetLocalAddress(); a.Port != 0 {
+						dport = a.Port
+					}
+				}
 				if r.R.Intn(5) == 0 {
 					dsts := [][]byte{v6a, {0xfe, 0x80, 0, 0, 0, 0, 0, 0, 0, 0, 0, 0, 0, 0, 0, 7}}
-					w.Inject(1, "6", v6r, dsts[r.R.Intn(2)], []uint16{9000, 9001}[r.R.Intn(2)], localPorts[r.R.Intn(2)], delta, payload, r.R.Intn(4))
+					w.Inject(1, "6", v6r, dsts[r.R.Intn(2)], []uint16{9000, 9001}[r.R.Intn(2)], dport, delta, payload, r.R.Intn(4))
 				} else {
 					srcs := [][]byte{rem1, rem2, rem3}
 					dsts := [][]byte{a1, a2, a3, {10, 0, 2, 7}, {10, 0, 0, 77}}
 					nic := 1 + r.R.Intn(2)
-					w.Inject(nic, "4", srcs[r.R.Intn(3)], dsts[r.R.Intn(len(dsts))], []uint16{9000, 9001}[r.R.Intn(2)], localPorts[r.R.Intn(2)], delta, payload, r.R.Intn(4))
+					w.Inject(nic, "4", srcs[r.R.Intn(3)], dsts[r.R.Intn(len(dsts))], []uint16{9000, 9001}[r.R.Intn(2)], dport, delta, payload, r.R.Intn(4))
 				}
 				if r.R.Intn(3) == 0 {
 					w.Ready()
@@ -367,7 +415,14 @@ func Gen(r *hx.Run, focus string) {
 				if r.R.Intn(3) == 0 {
 					w.Close(i)
 				} else {
-					w.RcvBuf(i, []int{0, 1, 10, 100, 1000, 32768}[r.R.Intn(6)])
+					// receive-buffer pressure: a burst of large datagrams to one 4-tuple without reading
+					// (the buffer limit is 32 KiB and not configurable in this stack)
+					dp := localPorts[r.R.Intn(2)]
+					for b := 0; b < 6+r.R.Intn(8); b++ {
+						payload := make([]byte, 3000+r.R.Intn(3000))
+						r.R.Read(payload)
+						w.Inject(1, "4", rem1, a1, 9000, dp, 0, payload, 0)
+					}
 				}
 			default:
 				if r.R.Intn(2) == 0 {
